@@ -22,7 +22,7 @@ def _variants_drop(plan, key):
 
 def _drop_instance(plan, idx):
     p = copy.deepcopy(plan)
-    if len(p["insts"]) <= 1:
+    if len(p.get("insts") or []) <= 1:
         return None
     del p["insts"][idx]
     acts = []
@@ -48,6 +48,8 @@ def _drop_instance(plan, idx):
 
 def _simplify(plan):
     out = []
+    if not plan.get("insts") or not plan.get("store"):
+        return out  # library-level scenarios (c17lib, c14sim) are identified by their seed only
     # no yields / stalls
     if plan["sched"].get("yield_prob", 0) > 0:
         p = copy.deepcopy(plan); p["sched"]["yield_prob"] = 0; p["sched"]["stall_max"] = 0; out.append(p)
@@ -106,7 +108,7 @@ def minimise(binary, plan, prop, sig, judge, budget_s=60, max_runs=400, log=None
         for gen in (
             lambda p: _variants_drop(p, "actions"),
             lambda p: _variants_drop(p, "faults"),
-            lambda p: [_drop_instance(p, i) for i in range(len(p["insts"]) - 1, -1, -1)],
+            lambda p: [_drop_instance(p, i) for i in range(len(p.get("insts") or []) - 1, -1, -1)],
             _simplify,
         ):
             while time.time() - t0 < budget_s and runs < max_runs:
